@@ -145,3 +145,10 @@ macro_rules! reach {
     () => { kani::cover!(true, "reach-end"); };
 }
 pub(crate) use reach;
+
+/// Unit equality that also compiles when unit checking is compiled out (`Unit` is then a field-less marker without
+/// `PartialEq`): in such a build every unit "is" every other, which is what the crate's own `eq_assume_true` answers.
+#[cfg(any(feature = "dim_check_release", all(debug_assertions, feature = "dim_check_debug")))]
+pub fn ueq(a: Unit, b: Unit) -> bool { a == b }
+#[cfg(not(any(feature = "dim_check_release", all(debug_assertions, feature = "dim_check_debug"))))]
+pub fn ueq(_a: Unit, _b: Unit) -> bool { true }
